@@ -162,6 +162,7 @@ type Machine struct {
 	curG            *G
 	pathFailed      bool
 	pathAbstract    bool // an uninterpreted abstraction was used on this path: its models need not replay
+	traceOff        int
 }
 
 type fnInfo struct {
@@ -186,7 +187,7 @@ func NewMachine(ld *Loaded, cfg JobConfig, solverKind string) (*Machine, error) 
 		sv.SetLog(f)
 	}
 	m := &Machine{prog: ld.Prog, ld: ld, ctx: ctx, solver: sv, cfg: cfg,
-		foreignGlobals: map[*ssa.Global]*Cell{}, foreignInitDone: map[*ssa.Package]bool{},
+		foreignGlobals: map[*ssa.Global]*Cell{}, foreignInitDone: map[*ssa.Package]bool{}, traceOff: -1,
 		domCache: map[int]bitset{}, fnInfos: map[*ssa.Function]*fnInfo{}, findKeys: map[string]bool{}, feasCache: map[string]SatResult{}}
 	m.res = &JobResult{Harness: cfg.Harness, Params: cfg.Params, PathsByEnd: map[string]int{}, Covers: map[string]int{},
 		Funcs: map[string]bool{}, Intrinsics: map[string]bool{}, Cuts: map[string]int{}}
@@ -340,7 +341,7 @@ func (m *Machine) runPath(fn *ssa.Function) {
 	for k := range m.covers {
 		m.res.Covers[k]++
 	}
-	if (end == "done" || end == "panic") && m.cfg.TraceEvery > 0 && len(m.res.Traces) < m.cfg.MaxTraces && m.pathNo%m.cfg.TraceEvery == 0 && !m.pathFailed && !m.pathAbstract && m.sched == nil {
+	if (end == "done" || end == "panic") && m.cfg.TraceEvery > 0 && len(m.res.Traces) < m.cfg.MaxTraces && m.pathNo%m.cfg.TraceEvery == m.traceOffset() && !m.pathFailed && !m.pathAbstract && m.sched == nil {
 		if model, ok := m.pathModel(nil); ok {
 			var cov []string
 			for k := range m.covers {
@@ -365,6 +366,34 @@ func appendUniq(l []string, s string) []string {
 		return l
 	}
 	return append(l, s)
+}
+
+// traceOffset spreads the sampled path numbers over the jobs of a check (a job with fewer than
+// TraceEvery paths is sampled with probability paths/TraceEvery instead of never): it is a hash of
+// the job's harness, parameters and decision prefix, so the choice is the same on every run.
+func (m *Machine) traceOffset() int {
+	if m.traceOff < 0 {
+		h := uint32(2166136261)
+		mix := func(s string) {
+			for i := 0; i < len(s); i++ {
+				h = (h ^ uint32(s[i])) * 16777619
+			}
+		}
+		mix(m.cfg.Harness)
+		keys := make([]string, 0, len(m.cfg.Params))
+		for k := range m.cfg.Params {
+			keys = append(keys, k)
+		}
+		sort.Strings(keys)
+		for _, k := range keys {
+			mix(k + "=" + m.cfg.Params[k] + ";")
+		}
+		for _, d := range m.cfg.Prefix {
+			mix(fmt.Sprint(d, ","))
+		}
+		m.traceOff = int(h % uint32(m.cfg.TraceEvery))
+	}
+	return m.traceOff
 }
 
 func panicText(p *goPanic) string {
